@@ -122,10 +122,40 @@ func ruleKeyUpdate(c *Ctx, r *Report) {
 	const rule4 = "successor-secret"
 	if nt := c.need(r, rule4, "(*"+pkgHS+".postHandshake).nextTrafficGeneration"); nt != nil {
 		r.Sites += len(nt.Blocks)
-		if al := returnedLiteral(nt, 0, tTG); al == nil {
+		// the generation handed back: a literal, or a copy of the current one whose fields are then
+		// overwritten (a field that is not overwritten is the current generation's)
+		var f map[string]ssa.Value
+		var at ssa.Instruction
+		if al := returnedLiteral(nt, 0, tTG); al != nil {
+			f, at = litFields(al), al
+		} else {
+			for _, b := range nt.Blocks {
+				ret, ok := b.Instrs[len(b.Instrs)-1].(*ssa.Return)
+				if !ok || len(ret.Results) == 0 || isNilConst(unspill(ret.Results[0])) {
+					continue
+				}
+				v := unspill(ret.Results[0])
+				cl, isCall := v.(*ssa.Call)
+				if !isCall || namedOf(cl.Type()) != tTG {
+					continue
+				}
+				f, at = map[string]ssa.Value{}, cl
+				for _, b2 := range nt.Blocks {
+					for _, in := range b2.Instrs {
+						if st, ok := in.(*ssa.Store); ok {
+							if fa, ok := st.Addr.(*ssa.FieldAddr); ok && fa.X == v {
+								_, fld, _, _ := fieldOfAddr(fa)
+								f[fld] = st.Val
+							}
+						}
+					}
+				}
+			}
+		}
+		if f == nil {
 			r.Unk(rule4, short(nt), c.pos(nt.Pos()), "returned TrafficGeneration literal not found")
 		} else {
-			f := litFields(al)
+			al := at
 			der := findCalls(nt, nameIs(pkgHS+".deriveNextApplicationTrafficSecret"))
 			okD := len(der) == 1 && isFieldLoad(der[0].Call.Args[1], tTG, "Secret")
 			r.Check(okD, rule4, short(nt)+":input", c.pos(nt.Pos()), "successor derived from the current generation's secret", "the successor secret is not derived from the current generation's secret")
@@ -133,7 +163,16 @@ func ruleKeyUpdate(c *Ctx, r *Report) {
 			r.Check(f["Secret"] != nil && allLeaves(c.Origins(f["Secret"], 0), isDer), rule4, short(nt)+":stored-secret", c.ipos(al), "the new generation stores the derived successor secret", "the new generation does not store the successor secret (the next update re-derives the same keys: the key ratchet stalls)")
 			np := findCalls(nt, nameHasSuffix(".NewRecordProtection"))
 			okP := len(np) == 1 && allLeaves(c.Origins(np[0].Call.Args[len(np[0].Call.Args)-1], 0), isDer)
-			r.Check(okP, rule4, short(nt)+":protection-key", c.pos(nt.Pos()), "record protection keyed by the successor secret", "the new record protection is not keyed by the successor secret")
+			// ... and it is that protection the new generation carries
+			if okP {
+				okP = f["Protection"] != nil && anyLeaf(append(c.Origins(f["Protection"], 0), f["Protection"]), func(l ssa.Value) bool {
+					if ex, isEx := l.(*ssa.Extract); isEx {
+						l = ex.Tuple
+					}
+					return l == ssa.Value(np[0])
+				})
+			}
+			r.Check(okP, rule4, short(nt)+":protection-key", c.pos(nt.Pos()), "record protection keyed by the successor secret", "the new generation does not carry a record protection built from the successor secret (it keeps the current one, or one keyed by something else): every epoch after a key update seals under the key and IV of the epoch before, and since record numbers restart at 0 per epoch the nonce of record (e+1, n) repeats that of (e, n) under the same key")
 			for _, fld := range []string{"Epoch", "Generation"} {
 				bo, ok := f[fld].(*ssa.BinOp)
 				k := int64(0)
